@@ -81,6 +81,53 @@ def canon_match_result(r):
             'tag_sources': jsonable(r.tag_sources), 'extra_fields': jsonable(r.extra_fields)}
 
 
+def decode_rows(v):
+    """supplemental rows arrive as JSON; {'__date__': 'YYYY-MM-DD'} stands for a cell that parsed as a date (cells that
+    did not parse stay raw strings, as load_supplemental_sources leaves them)"""
+    if isinstance(v, dict):
+        if set(v) == {'__date__'}:
+            return datetime.datetime.strptime(v['__date__'], '%Y-%m-%d').date()
+        return {k: decode_rows(x) for k, x in v.items()}
+    if isinstance(v, list):
+        return [decode_rows(x) for x in v]
+    return v
+
+
+_FRESH = {}
+
+
+def fresh_dump(src):
+    """ast.dump of a NEW parse of the key: what the entry must equal for as long as it lives"""
+    import ast as _ast
+    import warnings
+    if src not in _FRESH:
+        try:
+            with warnings.catch_warnings():
+                warnings.simplefilter('ignore')
+                _FRESH[src] = _ast.dump(_ast.parse(src, mode='eval'))
+        except Exception as e:  # noqa
+            _FRESH[src] = 'unparsable:' + type(e).__name__
+    return _FRESH[src]
+
+
+def mutated_entries():
+    """cache entries that no longer equal recomputation from their key (the invariant of c07_cache_invariant, observed)"""
+    import ast as _ast
+    import re as _re
+    bad = []
+    for k, t in list(expr_parser._expression_cache.items()):
+        try:
+            d = _ast.dump(t)
+        except Exception as e:  # noqa
+            d = 'undumpable:' + type(e).__name__
+        if not isinstance(k, str) or d != fresh_dump(k):
+            bad.append(k if isinstance(k, str) else repr(k))
+    for k, v in list(expr_parser._regex_cache.items()):
+        if not isinstance(k, str) or getattr(v, 'pattern', None) != k or getattr(v, 'flags', None) != _re.compile(k, _re.IGNORECASE).flags:
+            bad.append('re:' + (k if isinstance(k, str) else repr(k)))
+    return sorted(bad)
+
+
 def mk_date(s):
     return datetime.datetime.strptime(s, '%Y-%m-%d').date() if s else None
 
@@ -100,7 +147,7 @@ class Proc:
         self.rules = []          # what the last get_all_rules returned (the caller's variable)
         self.transforms = []
         self.engine = MerchantEngine()     # long-lived engine object that is re-parsed
-        self.ds = copy.deepcopy(uni.get('data_sources') or {})
+        self.ds = decode_rows(copy.deepcopy(uni.get('data_sources') or {}))
         self.seen_e, self.seen_r = set(), set()
         self.engines = []        # keep every cached engine alive so that identities are never reused
         self.origin = {}
@@ -217,6 +264,7 @@ class Proc:
             before = {'rules': canon_rules(self.rules), 'cached_engine': engine_snapshot(get_cached_engine()),
                       'data_sources': jsonable(self.ds)}
             try:
+                self.engine.match_mode = f.get('mode', 'first_match')      # public attribute of the engine
                 self.engine.parse(f['text'])
                 raised = None
             except Exception as e:  # noqa
@@ -237,6 +285,7 @@ class Proc:
             res['frame'] = self.diff(before, after) + ([] if td == t0 else ['transaction'])
         else:
             raise ValueError(kind)
+        res['mutated'] = mutated_entries()
         ek, rk = set(expr_parser._expression_cache), set(expr_parser._regex_cache)
         res['ek'] = sorted(k if isinstance(k, str) else repr(k) for k in ek - self.seen_e)
         res['rk'] = sorted(k if isinstance(k, str) else repr(k) for k in rk - self.seen_r)
